@@ -19,13 +19,27 @@ package secp256k1
 
 // Scalars modulo the group order: abstract (the field arithmetic is the
 // library's).  SetByteSlice overwrites the receiver only; IsZero reads only.
+// Documented behaviour of SetByteSlice (scalar and field element): at most 32
+// bytes are read as a big-endian number, reduced modulo the group order N
+// (resp. the field prime P), and the result says whether the number was >= N
+// (resp. >= P).
+// The value of a scalar: eight 32-bit limbs, least significant first.
+//@ spec modnVal(s *ModNScalar) int = s.n[0] + 0x100000000 * s.n[1] + 0x10000000000000000 * s.n[2] + 0x1000000000000000000000000 * s.n[3] + 0x100000000000000000000000000000000 * s.n[4] + 0x10000000000000000000000000000000000000000 * s.n[5] + 0x1000000000000000000000000000000000000000000000000 * s.n[6] + 0x100000000000000000000000000000000000000000000000000000000 * s.n[7]
 //@ func ModNScalar.SetByteSlice
 //@   trusted
 //@   modifies s.*
+//@   ensures len(b) <= 32 ==> (result == (beval(content(b), off(b), off(b) + len(b)) >= 0xFFFFFFFFFFFFFFFFFFFFFFFFFFFFFFFEBAAEDCE6AF48A03BBFD25E8CD0364141))
+//@   ensures len(b) <= 32 ==> modnVal(s) == beval(content(b), off(b), off(b) + len(b)) % 0xFFFFFFFFFFFFFFFFFFFFFFFFFFFFFFFEBAAEDCE6AF48A03BBFD25E8CD0364141
+
+//@ func FieldVal.SetByteSlice
+//@   trusted
+//@   modifies f.*
+//@   ensures len(b) <= 32 ==> (result == (beval(content(b), off(b), off(b) + len(b)) >= 0xFFFFFFFFFFFFFFFFFFFFFFFFFFFFFFFFFFFFFFFFFFFFFFFFFFFFFFFEFFFFFC2F))
 
 //@ func ModNScalar.IsZero
 //@   trusted
 //@   pure
+//@   ensures result == (modnVal(s) == 0)
 
 //@ func ModNScalar.IsOverHalfOrder
 //@   trusted
